@@ -44,6 +44,10 @@ open Repe Repe.Beve
 
 abbrev F : Facts := Gen.numericFacts
 
+/-- Every anchor of the property in the current source has one of the forms the extractor recognises at
+the spot the facts are read from; the theorems below are about exactly those facts. -/
+theorem anchors_recognised : F.unrecognised = [] := by decide
+
 /-! ### SIZE -/
 
 theorem size_roundtrip (n : Nat) (hn : n < 2^62) (rest : Bytes) :
